@@ -74,6 +74,15 @@ def decode_msg(toks):
         f = pb_parse(val)
     except Exception:
         m["undecodable"] = True; return m
+    try:
+        decode_fields(m, f)
+    except Exception:
+        # the bytes parse as protobuf but not as the message this URL names (e.g. a coin whose amount is not a number)
+        m["undecodable"] = True
+    return m
+
+
+def decode_fields(m, f):
     fc = m["facet"]
     if fc == "msg:send":
         m["from"] = pb_get(f, 1).decode(); m["to"] = pb_get(f, 2).decode()
